@@ -141,14 +141,21 @@ def checkCase (j : Json) : Except String Verdict := do
     idx := idx + 1
   -- C19 (on the implementation's own roles and keys): a sign-out's revocation is merged only into a revocation of the
   -- *same token* — a second session of the same user must get its own call to the identity provider
-  let mut seen : List (Bytes × Caller) := []
+  let mut seen : List (Bytes × Caller × Json) := []
   let mut i := 0
   for (c, o) in callers.zip obs do
     let role ← jstr o "role"
     let ikey ← jhex o "key"
     if role == "follower" then
       match seen.find? (·.1 == ikey) with
-      | some (_, lc) =>
+      | some (_, lc, lo) =>
+        -- a merged caller is told exactly what the executing call was told — in particular a *failed* revocation is a failure
+        -- for everyone who was waiting on it (nobody is signed out on the strength of an error somebody else received)
+        let lr := (lo.getObjVal? "result").toOption.getD Json.null
+        let fr := (o.getObjVal? "result").toOption.getD Json.null
+        if lr.compress != fr.compress then
+          for p in (if c.method == "revoke" then ["C19", "C16"] else ["C16"]) do
+            v := v.mon p "joined_get_leaders_result" i s!"{c.method}: leader {lr.compress} follower {fr.compress}"
         if c.method == "revoke" && lc.access != c.access then
           v := v.mon "C19" "revoke_merged_across_tokens" i s!"{showBytes lc.access} / {showBytes c.access}"
         -- a due revalidation / refresh is answered from a provider call made with the session's *own* token
@@ -159,7 +166,7 @@ def checkCase (j : Json) : Except String Verdict := do
         if !sameSubject c lc && modelKey side c != modelKey side lc then
           v := v.mon "C16" "different_subjects_merged" i s!"{showBytes ikey}"
       | none => pure ()
-    else seen := (ikey, c) :: seen
+    else seen := (ikey, c, o) :: seen
     i := i + 1
   pure v
 
